@@ -362,6 +362,11 @@ def check_font(t, order, boxes, exact, spec, flavour, where, has_empty_composite
                     continue  # convention clash on composites that render nothing (see ASSUMPTIONS)
                 raise Violation("%s.%s does not match the metrics / glyph data (%s)" % (tag, k, where), got=got, expected=v)
 
+    # OS/2.xAvgCharWidth (version >= 3): the rounded mean of the non-zero advances the metrics table stores
+    nz = [a for a in adv if a > 0]
+    avg = R.ot_round(sum(nz) / len(nz)) if nz else 0
+    if t["OS/2"].xAvgCharWidth != avg:
+        raise Violation("OS/2.xAvgCharWidth is not the mean of the non-zero stored advances (%s)" % where, got=t["OS/2"].xAvgCharWidth, expected=avg)
     hv("hhea", hmtx, adv, {n: hmtx[n][1] for n in order}, {n: (stored[n][2] - stored[n][0]) if stored[n] else 0 for n in order}, withbox)
     if "vmtx" in t:
         vmtx = t["vmtx"]
